@@ -46,6 +46,7 @@ partial def parseDesc (d : String) : Option Msg :=
   else if d.startsWith "news(" then (dropSuffixChar ((d.drop 5).toString)).toInt?.map Msg.news
   else if d.startsWith "badmsg(" then (dropSuffixChar ((d.drop 7).toString)).toNat?.map Msg.badmsg
   else if d == "pong" || d == "ack" || d == "cont()" then some .quiet
+  else if d == "deep" then some (.cont [])   -- levels of a very deep message the trace does not spell out
   else if d == "upd" || d == "unk" || d == "trunc" || d == "gzbad" then some .odd
   else if d.startsWith "cont[" then
     let inner := dropSuffixChar ((d.drop 5).toString)
